@@ -112,6 +112,18 @@ func runExpiryCase(t ev.Failer, c *ev.Collector, ec expiryCase) (bool, string, s
 	if v := conn.MustDo("SET", canaryKey, "c", "EX", ex, "STRING", "w"); v.IsErr() {
 		fail("c19-harness", "canary: "+v.String())
 	}
+	// prime every read path while the objects are still there and after the last client write (replies
+	// are not judged: a short deadline may already have passed): whatever a read path caches must not
+	// survive the sweep
+	for _, k := range db.SortedKeys() {
+		for _, q := range [][]string{{"STATS", k}, {"BOUNDS", k}, {"SCAN", k, "COUNT"}, {"SEARCH", k, "COUNT"},
+			{"SCAN", k, "IDS"}, {"INTERSECTS", k, "COUNT", "BOUNDS", "-90", "-180", "90", "180"}, {"NEARBY", k, "IDS", "POINT", "0", "0"}} {
+			conn.MustDo(q...)
+		}
+	}
+	conn.MustDo("SERVER")
+	conn.MustDo("SERVER", "ext")
+	conn.MustDo("KEYS", "*")
 	deadline := time.Now().Add(20 * time.Second)
 	for {
 		if v := conn.MustDo("EXISTS", canaryKey, "c"); v.Int == 0 {
